@@ -1264,7 +1264,8 @@ impl<'a> ParseState<'a, &'a str> {
             .copulas()
             .into_iter()
             // 是否有任意一个是「环境切片」的开头
-            .any(|copula| env_slice.starts_with_str(copula))
+            // ! `starts_with_str`在「切片比系词短」时只比较已有字符：须先确保剩余长度足够
+            .any(|copula| env_slice.len() >= copula.chars().count() && env_slice.starts_with_str(copula))
     }
 
     /// 消耗&置入/词项/原子
